@@ -53,6 +53,54 @@ def sig_typed(node):
     return (k, None, sig_typed(node.left), sig_typed(node.right))
 
 
+def sig_hash(root):
+    """Iterative structural hash (kinds, shape, sides, typed payloads): safe on
+    trees hundreds of levels deep, where a nested-tuple signature would hit the
+    recursion limit of repr/pickle."""
+    import hashlib
+    if root is None:
+        return "none"
+    out = {}
+    stack = [(root, False)]
+    seen = set()
+    while stack:
+        n, done = stack.pop()
+        if n is None:
+            continue
+        if done:
+            if isinstance(n, E.ConstantExpression):
+                pay = (type(n.value).__name__, repr(n.value))
+            elif isinstance(n, E.VariableExpression):
+                pay = n.identifier
+            else:
+                pay = None
+            l = out.get(id(n.left), "-") if n.left is not None else "-"
+            r = out.get(id(n.right), "-") if n.right is not None else "-"
+            out[id(n)] = hashlib.sha1(repr((type(n).__name__, pay, l, r)).encode()).hexdigest()[:20]
+            continue
+        if id(n) in seen:
+            out[id(n)] = "cycle"
+            continue
+        seen.add(id(n))
+        stack.append((n, True))
+        stack.append((n.right, False))
+        stack.append((n.left, False))
+    return out[id(root)]
+
+
+def brief(root, limit=14) -> str:
+    """Short iterative description: the first few nodes in preorder."""
+    names = []
+    for n in nodes_preorder(root)[:limit]:
+        if isinstance(n, E.ConstantExpression):
+            names.append(repr(n.value))
+        elif isinstance(n, E.VariableExpression):
+            names.append(str(n.identifier))
+        else:
+            names.append(type(n).__name__.replace("Expression", ""))
+    return " ".join(names)
+
+
 def show(node) -> str:
     """Own unambiguous printer (fully parenthesised prefix form)."""
     if node is None:
